@@ -69,8 +69,19 @@ def gen_case(rng, for_log=False):
             d = body[:k] + escb + body[k:2 * k + 1] + escb + body[2 * k + 1:]
         steps.append(['type', d.hex()])
         end = 'escape'
+    filt_in = rng.choice([None, None, 'upper', 'double', 'drop-x'])
+    if esc == 'Q' and rng.random() < 0.5:
+        # the input filter runs BEFORE the check for the escape character: a typed 'q' becomes the escape 'Q'
+        filt_in = 'upper'
+        body = bytes(rng.choice(b'abcdefghij') for _ in range(rng.randint(1, 8)))
+        k = rng.randint(0, len(body))
+        steps = [s for s in steps if not (s[0] == 'type' and (b'q' in bytes.fromhex(s[1]) or b'Q' in bytes.fromhex(s[1])))]
+        if end == 'escape':
+            steps = steps[:-1]
+        steps.append(['type', (body[:k] + b'q' + body[k:]).hex()])
+        end = 'escape'
     case = {'enc': rng.choice([None, 'utf-8']), 'poll': rng.random() < 0.4, 'escape': esc,
-            'filters': {'input': rng.choice([None, None, 'upper', 'double', 'drop-x']),
+            'filters': {'input': filt_in,
                         'output': rng.choice([None, None, 'upper', 'double', 'drop-x'])},
             'pending': rng.choice(['', '', 'PEND\xe9ing']), 'steps': steps, 'end': end, 'logs': []}
     if for_log:
@@ -146,6 +157,10 @@ def run_session(case):
         obs['outer_rx'] = S.outer_rx
         obs['sent_out'] = sent_out
         obs['escaped'] = escaped
+        if not obs['returned']:
+            # interact() is still running: the driver cannot report; the caller judges the non-return
+            obs['driver'] = None
+            return obs
         res = S.finish()
         if res is None:
             raise PeerError('no report from the driver')
@@ -167,6 +182,9 @@ def one(case, acc):
         acc.violation(mech, '%s esc=%r filters=%r pending=%r end=%s: %s' % (
             case['enc'] or 'bytes', case['escape'], case['filters'], case['pending'], case['end'], detail), case)
         return False
+    if d is None:
+        return v('interact-does-not-return', 'no return within 15 s after the %s (inner child received %r)' % (
+            'escape character' if obs['escaped'] else 'child exit', obs.get('child_rx', b'')[-30:]))
     if d.get('error'):
         raise PeerError('driver error: ' + d['error'][-300:])
     if d.get('interact_error'):
@@ -256,6 +274,9 @@ def interact_log_case(case, acc):
         return
     d = obs['driver']
     enc = case['enc']
+    if d is None:
+        acc.violation('interact-does-not-return:interact', 'interact() did not return (logs %s)' % '+'.join(case['logs']), case)
+        return
 
     def v(mech, detail):
         acc.violation(mech + ':interact', 'interact %s logs=%s: %s' % (enc or 'bytes', '+'.join(case['logs']), detail), case)
